@@ -190,27 +190,20 @@ Proof.
       pose proof (normalized_lower_bound _ Hl Hn Hne). lia.
 Qed.
 
-Lemma small_mul_pres v y v' :
-  vgood v -> 0 < y < B64 -> small_mul c v y = Some v' -> vgood v'.
-Proof.
-  intros (H1 & H2 & H3 & H4 & H5) Hy E.
-  apply small_mul_spec in E; [|assumption|lia].
-  destruct E as (V & O & Len & C & _ & G & I).
-  pose proof (lval_nonneg _ H1) as Hnn.
-  split; [exact O|]. split.
-  - apply (norm_from_len (vl v) (vl v') (lval (vl v) * y)); try assumption; try nia.
-    intros El. left. rewrite El. reflexivity.
-  - split; [apply I; exact H3|]. split; [lia|]. intros Ha. rewrite (C Ha). apply H5, Ha.
-Qed.
-
 Lemma small_mul_good v y :
   vgood v -> 0 < y < B64 -> lval (vl v) * y < B64 ^ BIGINT_LIMBS L ->
   exists v', small_mul c v y = Some v' /\ lval (vl v') = lval (vl v) * y /\ vgood v'.
 Proof.
-  intros G Hy Hb. pose proof G as (H1 & H2 & H3 & H4 & H5).
+  intros (H1 & H2 & H3 & H4 & H5) Hy Hb.
   destruct (small_mul c v y) as [v'|] eqn:E.
-  - exists v'. split; [reflexivity|]. split; [|eapply small_mul_pres; eassumption].
-    apply small_mul_spec in E; [|assumption|lia]. tauto.
+  - exists v'. split; [reflexivity|].
+    apply small_mul_spec in E; [|assumption|lia].
+    destruct E as (V & O & Len & C & _ & G & I). split; [exact V|].
+    pose proof (lval_nonneg _ H1) as Hnn.
+    split; [exact O|]. split.
+    + apply (norm_from_len (vl v) (vl v') (lval (vl v) * y)); try assumption; try nia.
+      intros El. left. rewrite El. reflexivity.
+    + split; [apply I; exact H3|]. split; [lia|]. intros Ha. rewrite (C Ha). apply H5, Ha.
   - exfalso. apply small_mul_None in E; [|assumption|lia].
     destruct E as (Ha & E1 & E2). specialize (H5 Ha).
     pose proof (zlen_nonneg (vl v)).
